@@ -1,5 +1,614 @@
 package main
 
-import "fmt"
+import (
+	"fmt"
+	"go/ast"
+	"go/parser"
+	"go/token"
+	"math/big"
+	"os"
+	"path/filepath"
+	"strings"
+)
 
-func genSched(repo, out string) error { return fmt.Errorf("not implemented yet") }
+// genSched re-reads the schedule formulas of core/schedule/{const,line,once,step}.go into the
+// deep-embedded arithmetic AST of coq/Model/SchedExpr.v (written to coq/Gen/SchedGen.v):
+//
+//	NewConst      -> clamp flag, n, duration argument, arguments handed to constDoAt
+//	constDoAt     -> the instant of operation i
+//	NewLine       -> flat-delegation flag, slope a, intercept b, n, duration argument
+//	lineDoAt      -> the instant of operation i (over the parameters a, b)
+//	NewOnce       -> duration, n, instant
+//	NewStep       -> flat-delegation flag, loop init / condition / increment, per-level call
+//
+// Local `x := e` definitions are inlined. Types are tracked just enough to tell an integer
+// division (both operands integer typed: int64, time.Duration, untyped constants adopt the other
+// side) from a float64 division, and a float->int conversion (truncation) from int->float.
+// Any statement or expression outside this grammar is an error (the tie is then broken).
+type skind int
+
+const (
+	kUntyped skind = iota
+	kInt
+	kFloat
+)
+
+type sval struct {
+	coq string
+	k   skind
+}
+
+type senv map[string]sval
+
+func typeKind(e ast.Expr) (skind, error) {
+	switch exprString(e) {
+	case "float64":
+		return kFloat, nil
+	case "int64", "time.Duration", "int":
+		return kInt, nil
+	}
+	return kUntyped, fmt.Errorf("unsupported parameter type %s", exprString(e))
+}
+
+func litQ(s string) (string, error) {
+	r, ok := new(big.Rat).SetString(s)
+	if !ok {
+		return "", fmt.Errorf("unparsable numeric literal %q", s)
+	}
+	if r.Sign() < 0 {
+		return "", fmt.Errorf("negative literal %q", s)
+	}
+	return fmt.Sprintf("(Lit (%s # %s))", r.Num().String(), r.Denom().String()), nil
+}
+
+func (env senv) tr(e ast.Expr) (sval, error) {
+	switch x := e.(type) {
+	case *ast.ParenExpr:
+		return env.tr(x.X)
+	case *ast.Ident:
+		v, ok := env[x.Name]
+		if !ok {
+			return sval{}, fmt.Errorf("identifier %s is not a parameter or an inlined local", x.Name)
+		}
+		return v, nil
+	case *ast.BasicLit:
+		if x.Kind != token.INT && x.Kind != token.FLOAT {
+			return sval{}, fmt.Errorf("unsupported literal %s", x.Value)
+		}
+		c, err := litQ(x.Value)
+		return sval{c, kUntyped}, err
+	case *ast.BinaryExpr:
+		a, err := env.tr(x.X)
+		if err != nil {
+			return sval{}, err
+		}
+		b, err := env.tr(x.Y)
+		if err != nil {
+			return sval{}, err
+		}
+		k := a.k
+		if k == kUntyped {
+			k = b.k
+		}
+		if a.k != kUntyped && b.k != kUntyped && a.k != b.k {
+			return sval{}, fmt.Errorf("mixed integer/float operands in %s", exprString(e))
+		}
+		var op string
+		switch x.Op {
+		case token.ADD:
+			op = "Add"
+		case token.SUB:
+			op = "Sub"
+		case token.MUL:
+			op = "Mul"
+		case token.QUO:
+			op = "Div"
+			if k == kInt {
+				op = "IntQuot"
+			}
+			if k == kUntyped {
+				return sval{}, fmt.Errorf("division of two untyped constants is not supported")
+			}
+		default:
+			return sval{}, fmt.Errorf("unsupported operator %s", x.Op)
+		}
+		return sval{fmt.Sprintf("(%s %s %s)", op, a.coq, b.coq), k}, nil
+	case *ast.CallExpr:
+		fn := exprString(x.Fun)
+		if len(x.Args) != 1 {
+			return sval{}, fmt.Errorf("unsupported call %s with %d arguments", fn, len(x.Args))
+		}
+		a, err := env.tr(x.Args[0])
+		if err != nil {
+			return sval{}, err
+		}
+		switch fn {
+		case "float64":
+			if a.k == kInt {
+				return sval{"(ToFloat " + a.coq + ")", kFloat}, nil
+			}
+			return sval{a.coq, kFloat}, nil
+		case "int64", "time.Duration":
+			if a.k == kFloat {
+				return sval{"(Trunc " + a.coq + ")", kInt}, nil
+			}
+			return sval{a.coq, kInt}, nil
+		case "math.Sqrt":
+			if a.k == kInt {
+				return sval{}, fmt.Errorf("math.Sqrt of an integer-typed value")
+			}
+			return sval{"(Sqrt " + a.coq + ")", kFloat}, nil
+		}
+		return sval{}, fmt.Errorf("unsupported call %s", fn)
+	}
+	return sval{}, fmt.Errorf("unsupported expression %T", e)
+}
+
+// bindParams gives the parameters their canonical (positional) names.
+func bindParams(fd *ast.FuncDecl, canon []string) (senv, map[string]string, error) {
+	env := senv{}
+	names := map[string]string{}
+	i := 0
+	for _, f := range fd.Type.Params.List {
+		k, err := typeKind(f.Type)
+		if err != nil {
+			return nil, nil, fmt.Errorf("%s: %v", fd.Name.Name, err)
+		}
+		for _, n := range f.Names {
+			if i >= len(canon) {
+				return nil, nil, fmt.Errorf("%s: more parameters than expected", fd.Name.Name)
+			}
+			env[n.Name] = sval{fmt.Sprintf("(Var %q)", canon[i]), k}
+			names[n.Name] = canon[i]
+			i++
+		}
+	}
+	if i != len(canon) {
+		return nil, nil, fmt.Errorf("%s: expected %d parameters, found %d", fd.Name.Name, len(canon), i)
+	}
+	return env, names, nil
+}
+
+func findFunc(f *ast.File, name string) (*ast.FuncDecl, error) {
+	for _, d := range f.Decls {
+		if fd, ok := d.(*ast.FuncDecl); ok && fd.Name.Name == name && fd.Recv == nil {
+			return fd, nil
+		}
+	}
+	return nil, fmt.Errorf("function %s not found", name)
+}
+
+// define handles `x := e` (single definition): the local is inlined.
+func (env senv) define(st ast.Stmt) (bool, error) {
+	as, ok := st.(*ast.AssignStmt)
+	if !ok || as.Tok != token.DEFINE || len(as.Lhs) != 1 || len(as.Rhs) != 1 {
+		return false, nil
+	}
+	id, ok := as.Lhs[0].(*ast.Ident)
+	if !ok {
+		return false, nil
+	}
+	v, err := env.tr(as.Rhs[0])
+	if err != nil {
+		return true, err
+	}
+	if v.k == kUntyped {
+		v.k = kInt
+		if bl, ok := as.Rhs[0].(*ast.BasicLit); ok && bl.Kind == token.FLOAT {
+			v.k = kFloat
+		}
+	}
+	env[id.Name] = v
+	return true, nil
+}
+
+// condString renders a comparison of two identifiers with canonical names, e.g. "ops<0", "from==to".
+func condString(e ast.Expr, names map[string]string) string {
+	be, ok := e.(*ast.BinaryExpr)
+	if !ok {
+		return "?"
+	}
+	side := func(x ast.Expr) string {
+		switch v := x.(type) {
+		case *ast.Ident:
+			if c, ok := names[v.Name]; ok {
+				return c
+			}
+			return v.Name
+		case *ast.BasicLit:
+			return v.Value
+		}
+		return "?"
+	}
+	return side(be.X) + be.Op.String() + side(be.Y)
+}
+
+type doAtCall struct {
+	dur  sval
+	n    sval
+	fn   string   // name of the doAt constructor, "" for a function literal
+	args []string // translated arguments of the constructor
+	lit  *ast.FuncLit
+}
+
+// newDoAt parses `return NewDoAtSchedule(dur, n, <ctor>(args...) | func literal)`.
+func (env senv) newDoAt(st ast.Stmt) (*doAtCall, error) {
+	ret, ok := st.(*ast.ReturnStmt)
+	if !ok || len(ret.Results) != 1 {
+		return nil, fmt.Errorf("expected `return NewDoAtSchedule(...)`")
+	}
+	call, ok := ret.Results[0].(*ast.CallExpr)
+	if !ok || exprString(call.Fun) != "NewDoAtSchedule" || len(call.Args) != 3 {
+		return nil, fmt.Errorf("expected `return NewDoAtSchedule(duration, n, doAt)`")
+	}
+	d, err := env.tr(call.Args[0])
+	if err != nil {
+		return nil, err
+	}
+	n, err := env.tr(call.Args[1])
+	if err != nil {
+		return nil, err
+	}
+	res := &doAtCall{dur: d, n: n}
+	switch x := call.Args[2].(type) {
+	case *ast.FuncLit:
+		res.lit = x
+	case *ast.CallExpr:
+		res.fn = exprString(x.Fun)
+		for _, a := range x.Args {
+			v, err := env.tr(a)
+			if err != nil {
+				return nil, err
+			}
+			res.args = append(res.args, v.coq)
+		}
+	default:
+		return nil, fmt.Errorf("unsupported doAt argument %T", x)
+	}
+	return res, nil
+}
+
+// doAtBody: inlined definitions, then `return func(i int64) time.Duration { return e }`
+// (or, for a literal, directly its body `return e`).
+func doAtLit(env senv, lit *ast.FuncLit) (string, error) {
+	if len(lit.Type.Params.List) != 1 || len(lit.Type.Params.List[0].Names) != 1 || exprString(lit.Type.Params.List[0].Type) != "int64" {
+		return "", fmt.Errorf("doAt literal must be func(i int64) time.Duration")
+	}
+	inner := senv{}
+	for k, v := range env {
+		inner[k] = v
+	}
+	inner[lit.Type.Params.List[0].Names[0].Name] = sval{`(Var "i")`, kInt}
+	if len(lit.Body.List) != 1 {
+		return "", fmt.Errorf("doAt literal body must be a single return")
+	}
+	ret, ok := lit.Body.List[0].(*ast.ReturnStmt)
+	if !ok || len(ret.Results) != 1 {
+		return "", fmt.Errorf("doAt literal body must be a single return")
+	}
+	v, err := inner.tr(ret.Results[0])
+	if err != nil {
+		return "", err
+	}
+	if v.k == kFloat {
+		return "", fmt.Errorf("doAt returns a float")
+	}
+	return v.coq, nil
+}
+
+func doAtCtor(f *ast.File, name string, canon []string) (string, error) {
+	fd, err := findFunc(f, name)
+	if err != nil {
+		return "", err
+	}
+	env, _, err := bindParams(fd, canon)
+	if err != nil {
+		return "", err
+	}
+	body := fd.Body.List
+	for i, st := range body {
+		if i == len(body)-1 {
+			ret, ok := st.(*ast.ReturnStmt)
+			if !ok || len(ret.Results) != 1 {
+				return "", fmt.Errorf("%s: last statement is not a return of a function literal", name)
+			}
+			lit, ok := ret.Results[0].(*ast.FuncLit)
+			if !ok {
+				return "", fmt.Errorf("%s: does not return a function literal", name)
+			}
+			return doAtLit(env, lit)
+		}
+		ok, err := env.define(st)
+		if err != nil {
+			return "", fmt.Errorf("%s: %v", name, err)
+		}
+		if !ok {
+			return "", fmt.Errorf("%s: unsupported statement %T", name, st)
+		}
+	}
+	return "", fmt.Errorf("%s: empty body", name)
+}
+
+// delegation: `if <cond> { return NewConst(x, y) }` -> (cond string, translated args)
+func delegation(env senv, names map[string]string, st ast.Stmt) (string, []string, bool, error) {
+	is, ok := st.(*ast.IfStmt)
+	if !ok {
+		return "", nil, false, nil
+	}
+	if is.Init != nil || is.Else != nil || len(is.Body.List) != 1 {
+		return "", nil, true, fmt.Errorf("unsupported if statement")
+	}
+	ret, ok := is.Body.List[0].(*ast.ReturnStmt)
+	if !ok || len(ret.Results) != 1 {
+		return "", nil, false, nil
+	}
+	call, ok := ret.Results[0].(*ast.CallExpr)
+	if !ok || exprString(call.Fun) != "NewConst" {
+		return "", nil, true, fmt.Errorf("if-branch does not return NewConst(...)")
+	}
+	var args []string
+	for _, a := range call.Args {
+		v, err := env.tr(a)
+		if err != nil {
+			return "", nil, true, err
+		}
+		args = append(args, v.coq)
+	}
+	return condString(is.Cond, names), args, true, nil
+}
+
+func coqList(xs []string) string { return "[" + strings.Join(xs, "; ") + "]" }
+
+func genSched(repo, out string) error {
+	fset := token.NewFileSet()
+	parse := func(name string) (*ast.File, error) {
+		return parser.ParseFile(fset, filepath.Join(repo, "core/schedule", name), nil, 0)
+	}
+	var b strings.Builder
+	b.WriteString("(* GENERATED by harness/cmd/translate sched from core/schedule/{const,line,once,step}.go.\n   Do not edit. *)\n")
+	b.WriteString("From Coq Require Import ZArith QArith String List.\nFrom PV Require Import Model.Sched Model.SchedExpr.\nImport ListNotations.\nLocal Open Scope string_scope.\n\n")
+	def := func(name, typ, val string) { fmt.Fprintf(&b, "Definition %s : %s := %s.\n", name, typ, val) }
+
+	// ---- const.go
+	cf, err := parse("const.go")
+	if err != nil {
+		return err
+	}
+	fd, err := findFunc(cf, "NewConst")
+	if err != nil {
+		return err
+	}
+	env, names, err := bindParams(fd, []string{"ops", "duration"})
+	if err != nil {
+		return err
+	}
+	clamp := "-"
+	var dc *doAtCall
+	for i, st := range fd.Body.List {
+		if i == len(fd.Body.List)-1 {
+			if dc, err = env.newDoAt(st); err != nil {
+				return fmt.Errorf("NewConst: %v", err)
+			}
+			break
+		}
+		if is, ok := st.(*ast.IfStmt); ok {
+			// if ops < 0 { ops = 0 }
+			if is.Init != nil || is.Else != nil || len(is.Body.List) != 1 || clamp != "-" {
+				return fmt.Errorf("NewConst: unsupported if statement")
+			}
+			as, ok := is.Body.List[0].(*ast.AssignStmt)
+			if !ok || as.Tok != token.ASSIGN || len(as.Lhs) != 1 || len(as.Rhs) != 1 {
+				return fmt.Errorf("NewConst: unsupported if body")
+			}
+			clamp = condString(is.Cond, names) + "=>" + condString(&ast.BinaryExpr{X: as.Lhs[0], Op: token.ASSIGN, Y: as.Rhs[0]}, names)
+			continue
+		}
+		ok, err := env.define(st)
+		if err != nil {
+			return fmt.Errorf("NewConst: %v", err)
+		}
+		if !ok {
+			return fmt.Errorf("NewConst: unsupported statement %T", st)
+		}
+	}
+	def("gen_const_clamp", "string", fmt.Sprintf("%q", clamp))
+	def("gen_const_dur", "expr", dc.dur.coq)
+	def("gen_const_n", "expr", dc.n.coq)
+	if dc.fn != "constDoAt" {
+		return fmt.Errorf("NewConst: doAt is not constDoAt(...)")
+	}
+	def("gen_const_doat_args", "list expr", coqList(dc.args))
+	at, err := doAtCtor(cf, "constDoAt", []string{"ops"})
+	if err != nil {
+		return err
+	}
+	def("gen_const_at", "expr", at)
+	b.WriteString("\n")
+
+	// ---- line.go
+	lf, err := parse("line.go")
+	if err != nil {
+		return err
+	}
+	fd, err = findFunc(lf, "NewLine")
+	if err != nil {
+		return err
+	}
+	env, names, err = bindParams(fd, []string{"from", "to", "duration"})
+	if err != nil {
+		return err
+	}
+	flat := "-"
+	var flatArgs []string
+	dc = nil
+	for i, st := range fd.Body.List {
+		if i == len(fd.Body.List)-1 {
+			if dc, err = env.newDoAt(st); err != nil {
+				return fmt.Errorf("NewLine: %v", err)
+			}
+			break
+		}
+		c, args, isIf, err := delegation(env, names, st)
+		if err != nil {
+			return fmt.Errorf("NewLine: %v", err)
+		}
+		if isIf {
+			if flat != "-" {
+				return fmt.Errorf("NewLine: more than one if statement")
+			}
+			flat, flatArgs = c, args
+			continue
+		}
+		ok, err := env.define(st)
+		if err != nil {
+			return fmt.Errorf("NewLine: %v", err)
+		}
+		if !ok {
+			return fmt.Errorf("NewLine: unsupported statement %T", st)
+		}
+	}
+	def("gen_line_flat", "string", fmt.Sprintf("%q", flat))
+	def("gen_line_flat_args", "list expr", coqList(flatArgs))
+	def("gen_line_dur", "expr", dc.dur.coq)
+	def("gen_line_n", "expr", dc.n.coq)
+	if dc.fn != "lineDoAt" {
+		return fmt.Errorf("NewLine: doAt is not lineDoAt(...)")
+	}
+	def("gen_line_doat_args", "list expr", coqList(dc.args))
+	at, err = doAtCtor(lf, "lineDoAt", []string{"a", "b"})
+	if err != nil {
+		return err
+	}
+	def("gen_line_at", "expr", at)
+	b.WriteString("\n")
+
+	// ---- once.go
+	of, err := parse("once.go")
+	if err != nil {
+		return err
+	}
+	fd, err = findFunc(of, "NewOnce")
+	if err != nil {
+		return err
+	}
+	env, _, err = bindParams(fd, []string{"n"})
+	if err != nil {
+		return err
+	}
+	if len(fd.Body.List) != 1 {
+		return fmt.Errorf("NewOnce: expected a single return")
+	}
+	dc, err = env.newDoAt(fd.Body.List[0])
+	if err != nil {
+		return fmt.Errorf("NewOnce: %v", err)
+	}
+	if dc.lit == nil {
+		return fmt.Errorf("NewOnce: doAt is not a function literal")
+	}
+	at, err = doAtLit(env, dc.lit)
+	if err != nil {
+		return fmt.Errorf("NewOnce: %v", err)
+	}
+	def("gen_once_dur", "expr", dc.dur.coq)
+	def("gen_once_n", "expr", dc.n.coq)
+	def("gen_once_at", "expr", at)
+	b.WriteString("\n")
+
+	// ---- step.go
+	sf, err := parse("step.go")
+	if err != nil {
+		return err
+	}
+	fd, err = findFunc(sf, "NewStep")
+	if err != nil {
+		return err
+	}
+	env, names, err = bindParams(fd, []string{"from", "to", "step", "duration"})
+	if err != nil {
+		return err
+	}
+	sflat := "-"
+	var sflatArgs []string
+	var loop *ast.ForStmt
+	var last ast.Stmt
+	for _, st := range fd.Body.List {
+		switch x := st.(type) {
+		case *ast.DeclStmt: // var nexts []core.Schedule
+			continue
+		case *ast.IfStmt:
+			c, args, _, err := delegation(env, names, x)
+			if err != nil || sflat != "-" {
+				return fmt.Errorf("NewStep: unsupported if statement (%v)", err)
+			}
+			sflat, sflatArgs = c, args
+		case *ast.ForStmt:
+			if loop != nil {
+				return fmt.Errorf("NewStep: more than one loop")
+			}
+			loop = x
+		case *ast.ReturnStmt:
+			last = x
+		default:
+			return fmt.Errorf("NewStep: unsupported statement %T", st)
+		}
+	}
+	if loop == nil || last == nil {
+		return fmt.Errorf("NewStep: loop or return missing")
+	}
+	if exprString(last.(*ast.ReturnStmt).Results[0]) != "NewCompositeConf()" {
+		return fmt.Errorf("NewStep: does not return NewCompositeConf(...)")
+	}
+	init, ok := loop.Init.(*ast.AssignStmt)
+	if !ok || init.Tok != token.DEFINE || len(init.Lhs) != 1 || len(init.Rhs) != 1 {
+		return fmt.Errorf("NewStep: unsupported loop init")
+	}
+	iv := init.Lhs[0].(*ast.Ident).Name
+	i0, err := env.tr(init.Rhs[0])
+	if err != nil {
+		return fmt.Errorf("NewStep: %v", err)
+	}
+	lenv := senv{}
+	for k, v := range env {
+		lenv[k] = v
+	}
+	lenv[iv] = sval{`(Var "i")`, i0.k}
+	names[iv] = "i"
+	post, ok := loop.Post.(*ast.AssignStmt)
+	if !ok || post.Tok != token.ADD_ASSIGN || len(post.Lhs) != 1 || exprString(post.Lhs[0]) != iv {
+		return fmt.Errorf("NewStep: loop post statement is not `i += ...`")
+	}
+	inc, err := lenv.tr(post.Rhs[0])
+	if err != nil {
+		return fmt.Errorf("NewStep: %v", err)
+	}
+	if len(loop.Body.List) != 1 {
+		return fmt.Errorf("NewStep: loop body is not a single append")
+	}
+	app, ok := loop.Body.List[0].(*ast.AssignStmt)
+	if !ok || len(app.Rhs) != 1 {
+		return fmt.Errorf("NewStep: loop body is not an append")
+	}
+	ac, ok := app.Rhs[0].(*ast.CallExpr)
+	if !ok || exprString(ac.Fun) != "append" || len(ac.Args) != 2 {
+		return fmt.Errorf("NewStep: loop body is not append(nexts, NewConst(...))")
+	}
+	nc, ok := ac.Args[1].(*ast.CallExpr)
+	if !ok || exprString(nc.Fun) != "NewConst" {
+		return fmt.Errorf("NewStep: appended value is not NewConst(...)")
+	}
+	var largs []string
+	for _, a := range nc.Args {
+		v, err := lenv.tr(a)
+		if err != nil {
+			return fmt.Errorf("NewStep: %v", err)
+		}
+		largs = append(largs, v.coq)
+	}
+	def("gen_step_flat", "string", fmt.Sprintf("%q", sflat))
+	def("gen_step_flat_args", "list expr", coqList(sflatArgs))
+	def("gen_step_init", "expr", i0.coq)
+	def("gen_step_cond", "string", fmt.Sprintf("%q", condString(loop.Cond, names)))
+	def("gen_step_incr", "expr", inc.coq)
+	def("gen_step_level_args", "list expr", coqList(largs))
+	return os.WriteFile(out, []byte(b.String()), 0o644)
+}
